@@ -161,7 +161,7 @@ CHECKS = {
             {"module": "rueidis", "scenario": "cmd-framing", "quick": 5000, "thorough": 300000},
             {"module": "rueidis", "scenario": "pipe-mix", "quick": 4000, "thorough": 100000},
         ],
-        "expected_probes": ["arg-len>=1000", "argc>=100", "frames-cut-on-the-wire"],
+        "expected_probes": ["command-written-more-than-once", "arg-len>=1000", "argc>=100", "frames-cut-on-the-wire"],
         "components": {"real": REAL, "stubs": STUBS},
         "assumptions": ["the model's command parser (verifsim/resp.ParseCommand) is strict and correct"],
     },
